@@ -53,6 +53,8 @@ def bounds(tier, seed):
 
 
 def cases(tier, seed):
+    if tier == "quick":
+        yield {"backend": "mps", "reg": "ladder16", "win": "one", "dmm": False, "dt": 10, "precision": 1e-5, "cap": None, "second_moment_large": True}
     for reg, coords in _regs(tier).items():
         n = len(coords)
         for win, dmm, dt in itertools.product(("one", "two"), (False, True), (10, 4)):
@@ -66,6 +68,9 @@ def cases(tier, seed):
                     if n >= 12 and (prec != 1e-5 or dt != 10):
                         continue
                     yield {"backend": "mps", "reg": reg, "win": win, "dmm": dmm, "dt": dt, "precision": prec, "cap": cap}
+        if n > 12:
+            # the second moment of large registers is requested in a case of its own (recorded finding: it aborts the run)
+            yield {"backend": "mps", "reg": reg, "win": "one", "dmm": False, "dt": 10, "precision": 1e-5, "cap": None, "second_moment_large": True}
 
 
 def run_case(case):
@@ -91,7 +96,8 @@ def run_case(case):
     label = " ".join(f"{k}={v}" for k, v in case.items())
     mod = sv if case["backend"] == "sv" else m
     with_state = n <= 12
-    obs = [mod.Energy(evaluation_times=ev), mod.EnergySecondMoment(evaluation_times=ev), mod.Occupation(evaluation_times=[1.0])]
+    want_m2 = n <= 12 or case.get("second_moment_large", False)
+    obs = [mod.Energy(evaluation_times=ev), mod.Occupation(evaluation_times=[1.0])] + ([mod.EnergySecondMoment(evaluation_times=ev)] if want_m2 else [])
     if with_state:
         obs.append(mod.StateResult(evaluation_times=ev))
     try:
@@ -104,6 +110,11 @@ def run_case(case):
                 cfg = m.MPSConfig(dt=dt, precision=case["precision"], observables=obs, log_level=logging.CRITICAL, num_gpus_to_use=0, optimize_qubit_ordering=False, **kw)
                 res = m.MPSBackend(seq, config=cfg).run()
     except Exception as e:
+        import traceback
+
+        tb = "".join(traceback.format_tb(e.__traceback__))
+        if isinstance(e, AssertionError) and "energy_second_moment_mps_impl" in tb and n > 12:
+            return result(False, sig="raises|mps|energy_second_moment asserts |Im <H^2>| < 1e-4 (absolute) on a large register", msg=f"{label}: AssertionError in energy_second_moment_mps_impl", outcome="raise-m2")
         return result(False, sig=f"raises|{case['backend']}|{type(e).__name__}", msg=f"{label}: {type(e).__name__}: {str(e)[:300]}", outcome="raise")
     U = R.interaction(seq, "rydberg")
     Hb = n * (5.0 / 2 + 4.0 + (6.0 if case["dmm"] else 0.0)) + np.abs(np.triu(U, 1)).sum()
@@ -124,7 +135,7 @@ def run_case(case):
     if not capped:
         for (a, b) in windows:
             ks = [t for t, g in zip(ev, grid) if a < g <= b + 1e-9] + ([ev[0]] if a == 0.0 else [])
-            for tag, scale in (("energy", 1.0), ("energy_second_moment", Hb)):
+            for tag, scale in (("energy", 1.0),) + ((("energy_second_moment", Hb),) if want_m2 else ()):
                 vals = np.array([float(np.real(runner.to_np(runner.get_at(res, tag, t)))) for t in sorted(ks)])
                 drift = float(vals.max() - vals.min())
                 if drift > tol_e * scale:
